@@ -7,7 +7,7 @@ PROPERTY_ID = "C03"
 RULE = ("one-step programs (new [; seek | hook counter preset] ; process): full product of variant x rounds{8,12,20} x key length x "
         "key pattern x nonce pattern x starting block (incl. 2^32-2, 2^32-1 and, through the hook, 64-bit low/high word boundaries; additionally every start 2^k-1, 2^k-2 so that the increment carries out of every bit position) x "
         "data length {0,1,63,64,65,128,129,193} x data pattern, compared with python models of RFC 8439 / Bernstein / XChaCha / XSalsa; "
-        "the same grid is run on the portable ChaCha engine through the hook wrapper; non-trivial = data length > 0; distinct = program text")
+        "seek histories (seek;seek and seek;process(l);seek over 10 positions incl. ones differing in the high half) for the 32-bit-counter variants; the same grid is run on the portable ChaCha engine through the hook wrapper; non-trivial = data length > 0; distinct = program text")
 ASSUMPTIONS = ["python keystream models validated by RFC 8439 2.3.2/2.4.2, draft-irtf-cfrg-xchacha 2.2.1/A.3.2, ECRYPT Salsa20 vectors and OpenSSL cross vectors",
                "XChaCha uses the 32-bit block counter of draft-irtf-cfrg-xchacha (the crate's seek(u32) and the property's hook list agree)",
                "key, nonce and data content come from the fixed pattern alphabet"]
@@ -25,6 +25,12 @@ M32 = 0xFFFFFFFF
 
 def builds_needed(tier):
     return ["rel"]
+
+
+# Own corpus re-run on other builds of the crate (mc/core.py: extra builds). Every observation is compared with the same model.
+def extra_builds(tier):
+    return [("relchk", None), ("sse41", None), ("avx2", None)]
+
 
 
 def bounds(tier):
@@ -77,7 +83,29 @@ def shards(tier):
                 sh.append(("shard_counterbits", (v, r)))
     for r in (8, 12, 20):
         sh.append(("shard_portable", r))
+        sh.append(("shard_seekhist", r))
     return sh
+
+
+def shard_seekhist(r, tier):
+    """the counter is *set*, not merged: seek after seek, seek after processed data (block-aligned or mid-block), seek to positions whose
+    high half differs from the current one; the next bytes are block n from byte 0"""
+    ck = core.Checker(PROPERTY_ID)
+    cases = []
+    S = (0, 1, 2, 5, 7, 0xffff, 0x10000, 0x12345, 0xfffe0003, 0xffffffff)
+    for v, kl, nl in (("chacha", 32, 12), ("chacha", 16, 12), ("xchacha", 32, 24)):
+        st = stream.Stream(v, r, pat(5, 0, kl), pat(7, 3, nl))
+        new = "cnew s0 %s %d %s %s" % (v, r, P(5, 0, kl), P(7, 3, nl))
+        for a in S:
+            for b in S:
+                cases.append(([new, "seek s0 %d" % a, "seek s0 %d" % b, "process s0 %s" % P(0, 0, 130)], ["-", "-", "-", obs_of(st.keystream(b, 0, 130))], {"n": 130}))
+            for l1 in (1, 63, 64, 65, 128):
+                for b in S:
+                    cases.append(([new, "seek s0 %d" % a, "process_mut s0 %s" % P(0, 0, l1), "seek s0 %d" % b, "process s0 %s" % P(0, 0, 65)],
+                                  ["-", "-", obs_of(st.keystream(a, 0, l1)), "-", obs_of(st.keystream(b, 0, 65))], {"n": 65}))
+    ck.run(cases, nontrivial=_nt)
+    ck.stats.states = len(cases)
+    return ck.stats
 
 
 def _nt(ops, meta):
